@@ -15,7 +15,8 @@ public:
     //freq - tune freq in range (-sample_rate/2 : sample_rate/2) (Hz)
     explicit Tuner(int sample_rate, real_t freq)
       : _fs{sample_rate}
-      , _freq{freq} {
+      , _freq{freq}
+      , _periodic{freq == std::floor(freq)} {
         DSPLIB_ASSERT(std::abs(_freq) <= (_fs / 2), "tuner freq must be in range (-fs/2 : fs/2)");
     }
 
@@ -27,7 +28,10 @@ public:
             const cmplx_t w = {std::cos(phase), std::sin(phase)};
             r[i] = x[i] * w;
             ++_phase;
-            _phase = (_phase < _fs) ? _phase : 0;
+            //the phase repeats after `fs` samples only for an integer number of cycles per `fs` samples
+            if (_periodic && (_phase >= _fs)) {
+                _phase = 0;
+            }
         }
         return r;
     }
@@ -47,7 +51,8 @@ public:
 private:
     int _fs;
     real_t _freq;
-    int _phase{0};
+    bool _periodic;
+    long long _phase{0};
 };
 
 }   // namespace dsplib
